@@ -67,13 +67,13 @@ Lemma after_Next c st s r st2 d : after c st s r = Next st2 d ->
   d = DReleased /\
   follow_redirect (rs_status r) (c_allow c) = true /\
   too_many_redirects (r_redirects st + 1)%Z (c_max c) = false /\
-  (negb (toget_of s r) && consumed_after_send (s_body s)) = false /\
+  (negb (toget_of s r) && consumed_after_send (s_body s) && negb (rs_unsent r)) = false /\
   exists target, resolve (s_org s) (rs_loc r) = inr (Some target) /\ st2 = next_state st s r target.
 Proof.
   unfold after.
   destruct (follow_redirect _ _); [|discriminate].
   destruct (too_many_redirects _ _); [discriminate|].
-  destruct (negb _ && _); [discriminate|].
+  destruct (negb _ && _ && _); [discriminate|].
   destruct (resolve _ _) as [e|[t|]]; try discriminate.
   intro H. inversion H; subst. repeat split; eauto.
 Qed.
@@ -83,7 +83,7 @@ Proof.
   unfold after.
   destruct (follow_redirect _ _).
   - destruct (too_many_redirects _ _); [intro H; inversion H; discriminate|].
-    destruct (negb _ && _); [intro H; inversion H; discriminate|].
+    destruct (negb _ && _ && _); [intro H; inversion H; discriminate|].
     destruct (resolve _ _) as [e|[t|]]; intro H; inversion H; discriminate.
   - intro H; inversion H; discriminate.
 Qed.
@@ -209,7 +209,7 @@ Qed.
 
 Lemma jar_from c : forall resps st i s,
   nth_error (sents (run_from c st resps)) i = Some s ->
-  s_jar s = jar_filter (jar_after (r_jar st) (sents (run_from c st resps)) resps i) (o_host (s_org s)).
+  s_jar s = jar_filter (jar_after (r_jar st) (sents (run_from c st resps)) resps i) (o_host (s_org s)) (s_path s).
 Proof.
   induction resps as [|r0 rest0 IH]; intros st i s Hn.
   - destruct (run_cases c st []) as [Hc Hr|Hc He Hr|r rest o d Hc He|r rest st2 d Hc He]; try discriminate.
@@ -227,10 +227,12 @@ Proof.
 Qed.
 
 (* a cookie selected from the jar for host h was stored for host h *)
-Lemma jar_filter_In j h n v : In (n, v) (jar_filter j h) -> In (h, n, v) j.
+Lemma jar_filter_In j h path n v : In (n, v) (jar_filter j h path) ->
+  exists sc, In (h, n, v, sc) j /\ scope_matches sc path = true.
 Proof.
-  unfold jar_filter. intro H. apply in_map_iff in H as [[[h' n'] v'] [E H]].
-  apply filter_In in H as [H1 H2]. cbn in *. apply N.eqb_eq in H2. inversion E; subst. exact H1.
+  unfold jar_filter. intro H. apply in_map_iff in H as [[[[h' n'] v'] sc] [E H]].
+  apply filter_In in H as [H1 H2]. unfold je_host, je_name, je_val, je_scope in *. cbn in *.
+  apply andb_true_iff in H2 as [H2 H3]. apply N.eqb_eq in H2. inversion E; subst. eauto.
 Qed.
 
 (* every pair on the Cookie line comes from one of the three sources *)
@@ -280,7 +282,7 @@ Lemma step_from c : forall resps st i s s',
     nth_error resps i = Some r /\ s = sent_of st1 /\
     follow_redirect (rs_status r) (c_allow c) = true /\
     too_many_redirects (r_redirects st1 + 1)%Z (c_max c) = false /\
-    (negb (toget_of s r) && consumed_after_send (s_body s)) = false /\
+    (negb (toget_of s r) && consumed_after_send (s_body s) && negb (rs_unsent r)) = false /\
     resolve (s_org s) (rs_loc r) = inr (Some target) /\
     s' = sent_of (next_state (stripped st1) s r target).
 Proof.
@@ -415,7 +417,7 @@ Proof.
       destruct (follow_redirect (rs_status r0) (c_allow c)) eqn:Hf.
       * destruct (too_many_redirects _ _).
         { inversion Ha; subst. cbn. split; [reflexivity|]. exists 0%nat. cbn. repeat split; auto. lia. }
-        destruct (negb _ && _).
+        destruct (negb _ && _ && _).
         { inversion Ha; subst. cbn. split; [reflexivity|]. exists 0%nat. cbn. repeat split; auto. lia. }
         destruct (resolve _ _) as [e|[tg|]] eqn:Hres; inversion Ha; subst.
         { apply resolve_err in Hres as [-> | ->]; cbn; (split; [reflexivity|]); exists 0%nat; cbn; repeat split; auto; lia. }
@@ -519,7 +521,7 @@ Qed.
 
 Lemma jar_reselected c q resps i s :
   nth_error (sents (run c q resps)) i = Some s ->
-  s_jar s = jar_filter (jar_after (q_jar q) (sents (run c q resps)) resps i) (o_host (s_org s)).
+  s_jar s = jar_filter (jar_after (q_jar q) (sents (run c q resps)) resps i) (o_host (s_org s)) (s_path s).
 Proof. intro Hn. exact (jar_from c resps (init q) i s Hn). Qed.
 
 Lemma table c q resps i s s' :
@@ -529,7 +531,8 @@ Lemma table c q resps i s s' :
     In (rs_status r) [301; 302; 303; 307; 308] /\ c_allow c = true /\
     if doc_switch_to_get (rs_status r) (s_meth s)
     then s_meth s' = MGet /\ s_body s' = BNone /\ s_clen s' = false
-    else s_meth s' = s_meth s /\ s_body s' = s_body s /\ s_clen s' = s_clen s /\ consumed_after_send (s_body s) = false.
+    else s_meth s' = s_meth s /\ s_body s' = s_body s /\ s_clen s' = s_clen s /\
+         (consumed_after_send (s_body s) = false \/ rs_unsent r = true).
 Proof.
   intros Hn Hn'.
   destruct (step_from c resps (init q) i s s' Hn Hn') as (r & st1 & target & Hr & Hs & Hf & _ & Hb & _ & Hs').
@@ -538,7 +541,10 @@ Proof.
   subst s'. cbn [sent_of next_state s_meth s_body s_clen r_meth r_body r_clen stripped].
   unfold toget_of. rewrite switch_to_get_doc.
   destruct (doc_switch_to_get (rs_status r) (s_meth s)); [auto|].
-  cbn [negb andb] in Hb. subst s. cbn. auto.
+  cbn [negb andb] in Hb. subst s. cbn [sent_of s_meth s_body s_clen] in *.
+  repeat split; auto.
+  destruct (consumed_after_send (r_body st1)); [right|left; reflexivity].
+  cbn [andb] in Hb. now destruct (rs_unsent r).
 Qed.
 
 Lemma terminates c q resps :
